@@ -128,16 +128,51 @@ fn relayout(rng: &mut Rng, a: &ArrayRef) -> ArrayRef {
 }
 
 // ---------------------------------------------------------------- instance
+//
+// Every call into arrow-row goes through `guarded` (a panic is an outcome that is logged and
+// judged, never a crash of the driver), and rows are only read after their lengths have been
+// checked through the public API (`Rows::row_len` against `Rows::size`), so that corrupted
+// offsets are reported instead of dereferenced.
+
+/// rows `from..` of a Rows object as byte vectors
+fn read_rows(rows: &Rows, from: usize) -> Result<Vec<Vec<u8>>, String> {
+    let r = guarded(|| -> Result<Vec<Vec<u8>>, String> {
+        let n = rows.num_rows();
+        let cap = rows.size();
+        let mut out = Vec::with_capacity(n.saturating_sub(from));
+        for i in from..n {
+            let len = rows.row_len(i);
+            if len > cap {
+                return Err(format!("row {i} of {n}: impossible length {len} (corrupt offsets)"));
+            }
+            let b = rows.row(i).as_ref().to_vec();
+            if b.len() != len {
+                return Err(format!("row {i}: row_len {len} but {} bytes", b.len()));
+            }
+            out.push(b);
+        }
+        Ok(out)
+    });
+    match r {
+        Ok(x) => x,
+        Err(p) => Err(format!("panic reading rows: {p}")),
+    }
+}
+
+fn bytes_json(b: &[Vec<u8>]) -> Value {
+    Value::Array(b.iter().map(|x| json!(x)).collect())
+}
 
 struct Inst<'a> {
     t: &'a mut Shards,
     st: &'a mut Stats,
     conv: RowConverter,
     ty: String,
-    nfields: usize,
     /// the Rows objects of this instance and, for each of their rows, the global row number
     objs: Vec<(Rows, Vec<usize>)>,
     total: usize,
+    /// a Rows object turned out to be unreadable: reported, the episode ends
+    broken: bool,
 }
 
 impl<'a> Inst<'a> {
@@ -151,11 +186,12 @@ impl<'a> Inst<'a> {
         guarded(|| cols.iter().map(|c| key::column(c.as_ref(), Unions::Keep)).collect::<Vec<_>>())
     }
 
-    fn row_bytes(rows: &Rows, from: usize) -> Vec<Value> {
-        (from..rows.num_rows()).map(|i| json!(rows.row(i).as_ref())).collect()
+    fn conv_failed(&mut self, via: &str, keys: Vec<Value>, msg: String) {
+        self.st.errs += 1;
+        self.emit(json!({"op": "conv", "via": via, "err": true, "msg": short(msg, 200), "keys": keys, "bytes": []}));
     }
 
-    /// convert_columns: a new Rows object
+    /// convert_columns: a new Rows object.  false = nothing to go on with
     fn convert(&mut self, cols: &[ArrayRef]) -> bool {
         let keys = match Self::keys_of(cols) {
             Ok(k) => k,
@@ -168,47 +204,61 @@ impl<'a> Inst<'a> {
                 false
             }
             Out::Err(e) => {
-                self.st.errs += 1;
-                self.emit(json!({"op": "conv", "via": "convert", "err": true, "msg": short(e, 200), "keys": keys, "bytes": []}));
+                self.conv_failed("convert", keys, e);
                 true
             }
-            Out::Ok(rows) => {
-                let n = rows.num_rows();
-                let bytes = Self::row_bytes(&rows, 0);
-                let ids: Vec<usize> = (self.total..self.total + n).collect();
-                self.total += n;
-                self.st.rows += n;
-                self.objs.push((rows, ids));
-                self.emit(json!({"op": "conv", "via": "convert", "err": false, "keys": keys, "bytes": bytes}));
-                true
-            }
+            Out::Ok(rows) => match read_rows(&rows, 0) {
+                Err(e) => {
+                    self.broken = true;
+                    self.conv_failed("convert", keys, e);
+                    false
+                }
+                Ok(bytes) => {
+                    let n = bytes.len();
+                    let ids: Vec<usize> = (self.total..self.total + n).collect();
+                    self.total += n;
+                    self.st.rows += n;
+                    self.objs.push((rows, ids));
+                    self.emit(json!({"op": "conv", "via": "convert", "err": false, "keys": keys, "bytes": bytes_json(&bytes)}));
+                    true
+                }
+            },
         }
     }
 
     /// append to an existing Rows object
     fn append(&mut self, obj: usize, cols: &[ArrayRef]) {
+        if self.broken {
+            return;
+        }
         let keys = match Self::keys_of(cols) {
             Ok(k) => k,
             Err(_) => return,
         };
         let conv = &self.conv;
         let (rows, ids) = &mut self.objs[obj];
-        let before = rows.num_rows();
+        let before = ids.len();
         let res = call(|| conv.append(rows, cols));
         match res {
             Out::Unsupported => self.st.skipped += 1,
             Out::Err(e) => {
-                self.st.errs += 1;
-                self.emit(json!({"op": "conv", "via": "append", "err": true, "msg": short(e, 200), "keys": keys, "bytes": []}));
+                // the Rows object may be half written: do not touch it again
+                self.broken = true;
+                self.conv_failed("append", keys, e);
             }
-            Out::Ok(()) => {
-                let n = rows.num_rows() - before;
-                let bytes = Self::row_bytes(rows, before);
-                ids.extend(self.total..self.total + n);
-                self.total += n;
-                self.st.rows += n;
-                self.emit(json!({"op": "conv", "via": "append", "err": false, "keys": keys, "bytes": bytes}));
-            }
+            Out::Ok(()) => match read_rows(rows, before) {
+                Err(e) => {
+                    self.broken = true;
+                    self.conv_failed("append", keys, e);
+                }
+                Ok(bytes) => {
+                    let n = bytes.len();
+                    ids.extend(self.total..self.total + n);
+                    self.total += n;
+                    self.st.rows += n;
+                    self.emit(json!({"op": "conv", "via": "append", "err": false, "keys": keys, "bytes": bytes_json(&bytes)}));
+                }
+            },
         }
     }
 
@@ -221,29 +271,45 @@ impl<'a> Inst<'a> {
         unreachable!()
     }
 
-    /// Row's Ord / Eq (and OwnedRow's) on pairs of rows of any of the Rows objects
+    fn live(&self) -> Vec<usize> {
+        self.objs.iter().flat_map(|(_, ids)| ids.iter().copied()).collect()
+    }
+
+    /// Row's Ord / Eq (and OwnedRow's) on pairs of rows of any of the live Rows objects
     fn ord(&mut self, rng: &mut Rng, k: usize) {
-        if self.total == 0 {
+        let live = self.live();
+        if live.is_empty() || self.broken {
             return;
         }
-        let pairs: Vec<(usize, usize)> = (0..k).map(|_| (rng.below(self.total), rng.below(self.total))).collect();
-        let mut cmp = vec![];
-        let mut eq = vec![];
-        for (a, b) in &pairs {
-            let (oa, pa) = self.locate(*a);
-            let (ob, pb) = self.locate(*b);
-            let ra = self.objs[oa].0.row(pa);
-            let rb = self.objs[ob].0.row(pb);
-            if rng.chance(30) {
-                let (xa, xb) = (ra.owned(), rb.owned());
-                cmp.push(xa.cmp(&xb) as i32);
-                eq.push(xa == xb);
-            } else {
-                cmp.push(ra.cmp(&rb) as i32);
-                eq.push(ra == rb);
+        let pairs: Vec<(usize, usize)> = (0..k).map(|_| (live[rng.below(live.len())], live[rng.below(live.len())])).collect();
+        let owned: Vec<bool> = (0..k).map(|_| rng.chance(30)).collect();
+        let locs: Vec<((usize, usize), (usize, usize))> = pairs.iter().map(|(a, b)| (self.locate(*a), self.locate(*b))).collect();
+        let objs = &self.objs;
+        let res = guarded(|| {
+            let mut cmp = vec![];
+            let mut eq = vec![];
+            for (((oa, pa), (ob, pb)), own) in locs.iter().zip(&owned) {
+                let ra = objs[*oa].0.row(*pa);
+                let rb = objs[*ob].0.row(*pb);
+                if *own {
+                    let (xa, xb) = (ra.owned(), rb.owned());
+                    cmp.push(xa.cmp(&xb) as i32);
+                    eq.push(xa == xb);
+                } else {
+                    cmp.push(ra.cmp(&rb) as i32);
+                    eq.push(ra == rb);
+                }
+            }
+            (cmp, eq)
+        });
+        let pj: Vec<Value> = pairs.iter().map(|(a, b)| json!([a, b])).collect();
+        match res {
+            Ok((cmp, eq)) => self.emit(json!({"op": "ord", "err": false, "pairs": pj, "cmp": cmp, "eq": eq})),
+            Err(p) => {
+                self.st.errs += 1;
+                self.emit(json!({"op": "ord", "err": true, "msg": short(format!("panic: {p}"), 200), "pairs": pj, "cmp": [], "eq": []}));
             }
         }
-        self.emit(json!({"op": "ord", "pairs": pairs.iter().map(|(a, b)| json!([a, b])).collect::<Vec<_>>(), "cmp": cmp, "eq": eq}));
     }
 
     fn emit_decoded(&mut self, op: &str, via: &str, sel: &[usize], res: Out<Vec<ArrayRef>>, extra: Option<Value>) {
@@ -279,20 +345,21 @@ impl<'a> Inst<'a> {
         self.emit(ev);
     }
 
-    /// convert_rows on a selection mixing rows of all Rows objects
+    /// convert_rows on a selection mixing rows of all live Rows objects
     fn decode_selection(&mut self, rng: &mut Rng, k: usize, parser: bool) {
-        if self.total == 0 {
+        let live = self.live();
+        if live.is_empty() || self.broken {
             return;
         }
-        let sel: Vec<usize> = (0..k).map(|_| rng.below(self.total)).collect();
+        let sel: Vec<usize> = (0..k).map(|_| live[rng.below(live.len())]).collect();
         let locs: Vec<(usize, usize)> = sel.iter().map(|g| self.locate(*g)).collect();
         let res = {
             let conv = &self.conv;
             let objs = &self.objs;
             if parser {
                 // through the raw bytes and RowParser
-                let raw: Vec<Vec<u8>> = locs.iter().map(|(o, p)| objs[*o].0.row(*p).as_ref().to_vec()).collect();
                 call(|| {
+                    let raw: Vec<Vec<u8>> = locs.iter().map(|(o, p)| objs[*o].0.row(*p).as_ref().to_vec()).collect();
                     let parser = conv.parser();
                     conv.convert_rows(raw.iter().map(|b| parser.parse(b)))
                 })
@@ -303,66 +370,82 @@ impl<'a> Inst<'a> {
         self.emit_decoded("dec", if parser { "parser" } else { "rows" }, &sel, res, None);
     }
 
-    /// convert_rows on a whole Rows object
-    fn decode_all(&mut self, obj: usize) {
+    /// the rows of a Rows object read again (they must still be what they were when they were
+    /// produced, whatever was appended since) and decoded with convert_rows(&rows)
+    fn reread(&mut self, obj: usize) {
+        if self.broken {
+            return;
+        }
         let sel = self.objs[obj].1.clone();
-        let res = {
-            let conv = &self.conv;
-            let rows = &self.objs[obj].0;
-            call(|| conv.convert_rows(rows))
-        };
-        self.emit_decoded("dec", "all", &sel, res, None);
+        match read_rows(&self.objs[obj].0, 0) {
+            Err(e) => {
+                self.broken = true;
+                self.emit_decoded("bin", "reread", &sel, Out::Err(e), Some(json!([])));
+            }
+            Ok(bytes) => {
+                let res = {
+                    let conv = &self.conv;
+                    let rows = &self.objs[obj].0;
+                    call(|| conv.convert_rows(rows))
+                };
+                self.emit_decoded("bin", "reread", &sel, res, Some(bytes_json(&bytes)));
+            }
+        }
     }
 
     /// Rows::push: copies of a selection of rows in a fresh Rows object, then decoded
     fn push_copy(&mut self, rng: &mut Rng, k: usize) {
-        if self.total == 0 {
+        let live = self.live();
+        if live.is_empty() || self.broken {
             return;
         }
-        let sel: Vec<usize> = (0..k).map(|_| rng.below(self.total)).collect();
+        let sel: Vec<usize> = (0..k).map(|_| live[rng.below(live.len())]).collect();
         let locs: Vec<(usize, usize)> = sel.iter().map(|g| self.locate(*g)).collect();
-        let mut bytes = vec![];
+        let (c1, c2) = (rng.below(3), rng.below(16));
+        let mut bytes: Vec<Vec<u8>> = vec![];
         let res = {
             let conv = &self.conv;
             let objs = &self.objs;
             call(|| {
-                let mut r = conv.empty_rows(rng.below(3), rng.below(16));
+                let mut r = conv.empty_rows(c1, c2);
                 for (o, p) in &locs {
                     r.push(objs[*o].0.row(*p));
                 }
-                bytes = (0..r.num_rows()).map(|i| json!(r.row(i).as_ref())).collect();
+                bytes = read_rows(&r, 0).map_err(ArrowError::ComputeError)?;
                 conv.convert_rows(&r)
             })
         };
-        self.emit_decoded("bin", "push", &sel, res, Some(json!(bytes)));
+        self.emit_decoded("bin", "push", &sel, res, Some(bytes_json(&bytes)));
     }
 
     /// Rows -> BinaryArray -> Rows -> convert_rows (consumes the Rows object)
     fn binary_round_trip(&mut self, obj: usize) {
+        if self.broken {
+            return;
+        }
         let (rows, ids) = self.objs.remove(obj);
         let conv = &self.conv;
-        let mut bytes = vec![];
+        let mut bytes: Vec<Vec<u8>> = vec![];
         let res = call(|| {
             let bin = rows.try_into_binary()?;
             let back = conv.from_binary(bin);
-            bytes = (0..back.num_rows()).map(|i| json!(back.row(i).as_ref())).collect();
+            bytes = read_rows(&back, 0).map_err(ArrowError::ComputeError)?;
             conv.convert_rows(&back)
         });
         // the object is gone: its rows stay in the specification's row set (they are values), but
         // the driver can no longer address them
-        self.emit_decoded("bin", "binary", &ids, res, Some(json!(bytes)));
+        self.emit_decoded("bin", "binary", &ids, res, Some(bytes_json(&bytes)));
     }
 }
 
-fn instance(rng: &mut Rng, args: &Args, t: &mut Shards, st: &mut Stats, fields: &[DataType], opts: &[SortOptions]) {
+/// a converter for `fields`; the `new` event is written.  None: unsupported (skipped) or failed (reported)
+fn open<'a>(t: &'a mut Shards, st: &'a mut Stats, fields: &[DataType], opts: &[SortOptions], note: &str) -> Option<Inst<'a>> {
     let sort_fields: Vec<SortField> = fields.iter().zip(opts).map(|(f, o)| SortField::new_with_options(f.clone(), *o)).collect();
-    let conv = match call(|| RowConverter::new(sort_fields)) {
-        Out::Ok(c) => c,
-        _ => {
-            st.skipped += 1;
-            return;
-        }
-    };
+    let made = call(|| RowConverter::new(sort_fields));
+    if let Out::Unsupported = made {
+        st.skipped += 1;
+        return None;
+    }
     t.next_episode();
     let ty = short(fields.iter().map(tok::type_str).collect::<Vec<_>>().join(" | "), 70);
     // type facts the specification uses to identify known findings: the family of every field and
@@ -375,19 +458,29 @@ fn instance(rng: &mut Rng, args: &Args, t: &mut Shards, st: &mut Stats, fields: 
             _ => false,
         })
         .collect();
-    t.emit(json!({"op": "new", "ty": ty, "fam": fam, "dn": dn, "opts": opts.iter().map(|o| json!([o.descending, o.nulls_first])).collect::<Vec<_>>()}));
+    t.emit(json!({"op": "new", "ty": ty, "note": note, "fam": fam, "dn": dn, "opts": opts.iter().map(|o| json!([o.descending, o.nulls_first])).collect::<Vec<_>>()}));
     st.events += 1;
     st.instances += 1;
-    let mut inst = Inst { t, st, conv, ty, nfields: fields.len(), objs: vec![], total: 0 };
-    let _ = inst.nfields;
+    match made {
+        Out::Ok(conv) => Some(Inst { t, st, conv, ty, objs: vec![], total: 0, broken: false }),
+        Out::Err(e) => {
+            // RowConverter::new failed for another reason than "not supported": an outcome to judge
+            st.errs += 1;
+            t.emit(json!({"op": "conv", "via": "new", "ty": ty, "err": true, "msg": short(e, 200), "keys": [], "bytes": []}));
+            st.events += 1;
+            None
+        }
+        Out::Unsupported => unreachable!(),
+    }
+}
+
+fn instance(rng: &mut Rng, args: &Args, t: &mut Shards, st: &mut Stats, fields: &[DataType], opts: &[SortOptions]) {
+    let Some(mut inst) = open(t, st, fields, opts, "mixed calls") else { return };
     let max_rows = 40usize;
     let n1 = 1 + rng.below(12);
     let a: Vec<ArrayRef> = fields.iter().map(|f| gen_col(rng, f, n1)).collect();
-    if !inst.convert(&a) {
-        return;
-    }
-    if inst.objs.is_empty() {
-        return; // the first conversion failed (reported)
+    if !inst.convert(&a) || inst.objs.is_empty() {
+        return; // unsupported, or the first conversion failed (reported)
     }
     // the same logical rows in another physical layout: must give the same bytes
     let a2: Vec<ArrayRef> = a.iter().map(|c| relayout(rng, c)).collect();
@@ -396,7 +489,7 @@ fn instance(rng: &mut Rng, args: &Args, t: &mut Shards, st: &mut Stats, fields: 
     let n2 = rng.below(10);
     let b: Vec<ArrayRef> = fields.iter().map(|f| gen_col(rng, f, n2)).collect();
     inst.convert(&b);
-    // append to the first Rows object: rows of a mixed with fresh ones
+    // append to the first Rows object: fresh rows, then the rows of a again
     let n3 = (max_rows - inst.total.min(max_rows)).min(1 + rng.below(8));
     if n3 > 0 {
         let c: Vec<ArrayRef> = fields.iter().map(|f| gen_col(rng, f, n3)).collect();
@@ -406,7 +499,7 @@ fn instance(rng: &mut Rng, args: &Args, t: &mut Shards, st: &mut Stats, fields: 
         inst.append(0, &a);
     }
     // an empty conversion
-    if rng.chance(20) {
+    if rng.chance(20) && !inst.broken {
         let e: Vec<ArrayRef> = fields.iter().map(|f| gen_col(rng, f, 0)).collect();
         inst.convert(&e);
     }
@@ -415,24 +508,54 @@ fn instance(rng: &mut Rng, args: &Args, t: &mut Shards, st: &mut Stats, fields: 
     inst.decode_selection(rng, k, false);
     let k = 1 + rng.below(10);
     inst.decode_selection(rng, k, true);
-    inst.decode_all(0);
+    inst.reread(0);
     let k = rng.below(8);
     inst.push_copy(rng, k);
     if inst.objs.len() > 1 {
         inst.binary_round_trip(1);
     }
     // rows of the remaining objects are still decodable after another object is gone
-    let live: Vec<usize> = inst.objs.iter().flat_map(|(_, ids)| ids.iter().copied()).collect();
-    if !live.is_empty() {
-        let sel: Vec<usize> = (0..1 + rng.below(6)).map(|_| live[rng.below(live.len())]).collect();
-        let locs: Vec<(usize, usize)> = sel.iter().map(|g| inst.locate(*g)).collect();
-        let res = {
-            let conv = &inst.conv;
-            let objs = &inst.objs;
-            call(|| conv.convert_rows(locs.iter().map(|(o, p)| objs[*o].0.row(*p))))
-        };
-        inst.emit_decoded("dec", "rows", &sel, res, None);
+    let k = 1 + rng.below(6);
+    inst.decode_selection(rng, k, false);
+}
+
+/// append across conversions: one Rows object that receives a conversion and then 2-3 appends (other
+/// arrays, other lengths, an empty one now and then); every row is compared with every other one as it
+/// arrives, then all rows are read again, compared through Row's Ord / Eq and decoded
+fn append_chain(rng: &mut Rng, args: &Args, t: &mut Shards, st: &mut Stats, fields: &[DataType], opts: &[SortOptions], note: &str) {
+    let Some(mut inst) = open(t, st, fields, opts, note) else { return };
+    let n1 = 1 + rng.below(8);
+    let a: Vec<ArrayRef> = fields.iter().map(|f| gen_col(rng, f, n1)).collect();
+    if !inst.convert(&a) || inst.objs.is_empty() {
+        return;
     }
+    for k in 0..2 + rng.below(2) {
+        let n = if rng.chance(12) { 0 } else { 1 + rng.below(8) };
+        let c: Vec<ArrayRef> = if k == 1 && rng.chance(30) { a.clone() } else { fields.iter().map(|f| gen_col(rng, f, n)).collect() };
+        inst.append(0, &c);
+    }
+    inst.reread(0);
+    inst.ord(rng, args.scale(30, 60));
+    let k = 1 + rng.below(12);
+    let via_parser = rng.chance(40);
+    inst.decode_selection(rng, k, via_parser);
+    // a second object appended to as well, then both mixed in one selection
+    let nb = 1 + rng.below(4);
+    let b: Vec<ArrayRef> = fields.iter().map(|f| gen_col(rng, f, nb)).collect();
+    if inst.convert(&b) && inst.objs.len() > 1 {
+        let nc = 1 + rng.below(4);
+        let c: Vec<ArrayRef> = fields.iter().map(|f| gen_col(rng, f, nc)).collect();
+        inst.append(1, &c);
+        inst.reread(1);
+        inst.reread(0);
+        let k = 1 + rng.below(10);
+        inst.decode_selection(rng, k, false);
+    }
+}
+
+/// field types whose row encoding has a fixed width (every row of such a schema has the same length)
+fn fixed_width_types() -> Vec<DataType> {
+    mk::flat_types().into_iter().filter(|t| t.is_primitive() || matches!(t, DataType::Boolean | DataType::FixedSizeBinary(_))).chain(std::iter::once(DataType::Null)).collect()
 }
 
 fn extra_types() -> Vec<DataType> {
@@ -522,6 +645,20 @@ fn main() {
                     instance(&mut rng, &args, &mut t, &mut st, std::slice::from_ref(&dt), &[o]);
                 }
             }
+        }
+        // append across conversions: all-fixed-width schemas (rows of one length) and mixed ones
+        let fixed = fixed_width_types();
+        let variable: Vec<DataType> = types.iter().filter(|t| !fixed.contains(t)).cloned().collect();
+        for i in 0..args.scale(90, 240) {
+            let k = 1 + rng.below(3);
+            let all_fixed = i % 2 == 0;
+            let mut fields: Vec<DataType> = (0..k).map(|_| rng.pick(&fixed).clone()).collect();
+            if !all_fixed {
+                let j = rng.below(k);
+                fields[j] = rng.pick(&variable).clone();
+            }
+            let opts: Vec<SortOptions> = (0..k).map(|_| ALL_OPTS[rng.below(4)]).collect();
+            append_chain(&mut rng, &args, &mut t, &mut st, &fields, &opts, if all_fixed { "append chain, fixed width" } else { "append chain, mixed" });
         }
         // cross-type tuples, one SortOptions per field
         for _ in 0..args.scale(120, 300) {
